@@ -28,6 +28,7 @@ type hostileMsg struct {
 	m     refwire.Message
 	kind  string
 	class string // allocation class, for known findings
+	vote  uint64 // an accepted-looking large metadata_size vote carried by the message
 }
 
 func drawIndex(st *simrt.Stream, np int) uint32 {
@@ -76,7 +77,7 @@ func genHostile(st *simrt.Stream, spec *TorSpec, p *RefPeer) hostileMsg {
 		if i >= 1<<20 {
 			class = "have-index"
 		}
-		return hostileMsg{refwire.Have{Index: i}, "have", class}
+		return hostileMsg{refwire.Have{Index: i}, "have", class, 0}
 	case 1:
 		n := simrt.Pick(st, (np+7)/8, 0, (np+7)/8+1, max((np+7)/8-1, 0), 1000, 100000)
 		b := drawBytes(st, n)
@@ -85,28 +86,28 @@ func genHostile(st *simrt.Stream, spec *TorSpec, p *RefPeer) hostileMsg {
 				b[i] = 0xff
 			}
 		}
-		return hostileMsg{refwire.Bitfield{Bits: b}, "bitfield", ""}
+		return hostileMsg{refwire.Bitfield{Bits: b}, "bitfield", "", 0}
 	case 2:
-		return hostileMsg{refwire.HaveAll{}, "have-all", ""}
+		return hostileMsg{refwire.HaveAll{}, "have-all", "", 0}
 	case 3:
-		return hostileMsg{refwire.HaveNone{}, "have-none", ""}
+		return hostileMsg{refwire.HaveNone{}, "have-none", "", 0}
 	case 4:
-		return hostileMsg{refwire.Request{Index: idx(), Begin: off(), Length: ln()}, "request", "request-length"}
+		return hostileMsg{refwire.Request{Index: idx(), Begin: off(), Length: ln()}, "request", "request-length", 0}
 	case 5:
-		return hostileMsg{refwire.Cancel{Index: idx(), Begin: off(), Length: ln()}, "cancel", ""}
+		return hostileMsg{refwire.Cancel{Index: idx(), Begin: off(), Length: ln()}, "cancel", "", 0}
 	case 6:
-		return hostileMsg{refwire.RejectRequest{Index: idx(), Begin: off(), Length: ln()}, "reject", ""}
+		return hostileMsg{refwire.RejectRequest{Index: idx(), Begin: off(), Length: ln()}, "reject", "", 0}
 	case 7:
-		return hostileMsg{refwire.AllowedFast{Index: idx()}, "allowed-fast", ""}
+		return hostileMsg{refwire.AllowedFast{Index: idx()}, "allowed-fast", "", 0}
 	case 8:
-		return hostileMsg{refwire.SuggestPiece{Index: idx()}, "suggest", ""}
+		return hostileMsg{refwire.SuggestPiece{Index: idx()}, "suggest", "", 0}
 	case 9:
 		n := simrt.Pick(st, chunkSize, 0, 1, chunkSize-1, chunkSize+1, 2*chunkSize, 3*chunkSize+5)
 		i := idx()
 		if st.Bool(2, 3) {
 			i = uint32(st.Choice(np))
 		}
-		return hostileMsg{refwire.Piece{Index: i, Begin: off(), Data: drawBytes(st, n)}, "piece", ""}
+		return hostileMsg{refwire.Piece{Index: i, Begin: off(), Data: drawBytes(st, n)}, "piece", "", 0}
 	case 10: // extended handshake
 		h := refwire.ExtHandshake{}
 		if st.Bool(2, 3) {
@@ -118,12 +119,16 @@ func genHostile(st *simrt.Stream, spec *TorSpec, p *RefPeer) hostileMsg {
 			}
 		}
 		class := ""
+		vote := uint64(0)
 		if st.Bool(1, 2) {
 			h.HasMetadataSize = true
 			tl := int64(len(spec.Info))
 			h.MetadataSize = simrt.Pick(st, tl, 0, 1, tl-1, tl+1, 1<<20, 128<<20, 128<<20+1, 1<<32-1)
 			if h.MetadataSize >= 1<<20 && h.MetadataSize != tl {
 				class = "metadata-size-vote"
+				if h.MetadataSize <= 128<<20 {
+					vote = uint64(h.MetadataSize)
+				}
 			}
 		}
 		if st.Bool(1, 2) {
@@ -139,7 +144,7 @@ func genHostile(st *simrt.Stream, spec *TorSpec, p *RefPeer) hostileMsg {
 			h.IPv4 = drawBytes(st, simrt.Pick(st, 4, 0, 3, 16))
 			h.IPv6 = drawBytes(st, simrt.Pick(st, 16, 0, 4, 17))
 		}
-		return hostileMsg{refwire.Extended{SubID: 0, Payload: refwire.EncodeExtHandshake(h)}, "ext-handshake", class}
+		return hostileMsg{refwire.Extended{SubID: 0, Payload: refwire.EncodeExtHandshake(h)}, "ext-handshake", class, vote}
 	case 11: // metadata messages
 		tl := int64(len(spec.Info))
 		nb := (tl + 16383) / 16384
@@ -158,7 +163,7 @@ func genHostile(st *simrt.Stream, spec *TorSpec, p *RefPeer) hostileMsg {
 				mm.Data = drawBytes(st, n)
 			}
 		}
-		return hostileMsg{refwire.Extended{SubID: extID("ut_metadata", 2), Payload: refwire.EncodeMetadata(mm)}, "ut_metadata", ""}
+		return hostileMsg{refwire.Extended{SubID: extID("ut_metadata", 2), Payload: refwire.EncodeMetadata(mm)}, "ut_metadata", "", 0}
 	case 12: // PEX
 		var a, d []refwire.PexPeer
 		na := simrt.Pick(st, 3, 0, 50, 3000)
@@ -182,19 +187,19 @@ func genHostile(st *simrt.Stream, spec *TorSpec, p *RefPeer) hostileMsg {
 				class = "bencode-declared-string-length"
 			}
 		}
-		return hostileMsg{refwire.Extended{SubID: extID("ut_pex", 1), Payload: payload}, "ut_pex", class}
+		return hostileMsg{refwire.Extended{SubID: extID("ut_pex", 1), Payload: payload}, "ut_pex", class, 0}
 	case 13:
-		return hostileMsg{refwire.Extended{SubID: extID("lt_donthave", 3), Payload: binary.BigEndian.AppendUint32(nil, idx())}, "lt_donthave", ""}
+		return hostileMsg{refwire.Extended{SubID: extID("lt_donthave", 3), Payload: binary.BigEndian.AppendUint32(nil, idx())}, "lt_donthave", "", 0}
 	case 14:
-		return hostileMsg{refwire.Extended{SubID: extID("upload_only", 4), Payload: []byte{byte(st.Choice(2))}}, "upload_only", ""}
+		return hostileMsg{refwire.Extended{SubID: extID("upload_only", 4), Payload: []byte{byte(st.Choice(2))}}, "upload_only", "", 0}
 	case 15:
-		return hostileMsg{refwire.Extended{SubID: uint8(5 + st.Choice(250)), Payload: drawBytes(st, st.Choice(100))}, "ext-unknown", ""}
+		return hostileMsg{refwire.Extended{SubID: uint8(5 + st.Choice(250)), Payload: drawBytes(st, st.Choice(100))}, "ext-unknown", "", 0}
 	case 16:
-		return hostileMsg{refwire.Unknown{ID: uint8(simrt.Pick(st, 10, 11, 12, 18, 19, 21, 255)), Payload: drawBytes(st, st.Choice(50))}, "unknown-id", ""}
+		return hostileMsg{refwire.Unknown{ID: uint8(simrt.Pick(st, 10, 11, 12, 18, 19, 21, 255)), Payload: drawBytes(st, st.Choice(50))}, "unknown-id", "", 0}
 	case 17:
-		return hostileMsg{refwire.Port{Port: uint16(st.Choice(65536))}, "port", ""}
+		return hostileMsg{refwire.Port{Port: uint16(st.Choice(65536))}, "port", "", 0}
 	default:
-		return hostileMsg{simrt.Pick[refwire.Message](st, refwire.KeepAlive{}, refwire.Choke{}, refwire.Unchoke{}, refwire.Interested{}, refwire.NotInterested{}), "state", ""}
+		return hostileMsg{simrt.Pick[refwire.Message](st, refwire.KeepAlive{}, refwire.Choke{}, refwire.Unchoke{}, refwire.Interested{}, refwire.NotInterested{}), "state", "", 0}
 	}
 }
 
@@ -271,6 +276,7 @@ func hostileMain(rc *RunCtx) {
 	}
 	rc.SetSample("setup", fmt.Sprintf("magnet=%v quiet-world=%v piece=%dK pieces=%d info=%d bytes hostile-peers=%d honest-seed-serves-metadata=%v", magnet, quiet, spec.Geo.PieceSize>>10, spec.Geo.NPieces, len(spec.Info), nh, !seedCfg.NoMetadata))
 	join := &Join{n: nh}
+	var bigVote uint64 // largest acceptable metadata_size a hostile peer has voted for before the metadata was complete
 	for h := 0; h < nh; h++ {
 		h := h
 		nmsg := 4 + st.Choice(40)
@@ -315,6 +321,9 @@ func hostileMain(rc *RunCtx) {
 					w.AwaitQuiet(2 * time.Second)
 				}
 				a0, h0 := alloc.Bytes(), heapAllocBytes()
+				if state == "before-metadata" {
+					bigVote = max(bigVote, hm.vote)
+				}
 				rc.Tracef("%s sends %s (%d bytes) %s: %s", p.Cfg.Name, hm.kind, len(frame), state, briefMsg(hm.m))
 				p.SendRaw(frame)
 				rc.Progress()
@@ -326,7 +335,13 @@ func hostileMain(rc *RunCtx) {
 					a1, h1 := alloc.Bytes(), heapAllocBytes()
 					bound := uint64(32<<20) + 64*uint64(len(frame)) + 32*uint64(spec.Geo.NPieces) + 2*uint64(spec.Geo.PieceSize)
 					if h1-h0 > bound {
-						rc.Fail("C05", "alloc-bound", hm.class, "after a %d-byte %s message (%s, %s) the process allocated %d KiB before it came to rest (bound %d KiB)", len(frame), hm.kind, briefMsg(hm.m), state, (h1-h0)>>10, bound>>10)
+						class := hm.class
+						if class == "" && state == "before-metadata" && bigVote > 0 && h1-h0 <= bigVote+bound {
+							// the size a hostile peer voted for earlier in this run wins the
+							// (re)count only now: the same allocation, one message later
+							class = "metadata-size-vote"
+						}
+						rc.Fail("C05", "alloc-bound", class, "after a %d-byte %s message (%s, %s) the process allocated %d KiB before it came to rest (bound %d KiB)", len(frame), hm.kind, briefMsg(hm.m), state, (h1-h0)>>10, bound>>10)
 						return
 					}
 					if a1-a0 > spec.Geo.PieceSize {
